@@ -569,7 +569,17 @@ int cmdRun(int argc, char** argv, bool replay) {
   g_mode = MODE_ONESHOT;
   const Json* ex = plan.find("expect");
   RunResult r;
-  if (replay && ex && ex->gets("status") == "san") {
+  if (replay && ex && ex->gets("status") == "realtime") {
+    // the expected failure is a run that never ends in real time (a loop the scheduler cannot see): contain it in a child
+    r = runIsolated(w, plan, 90, prop);
+    if (r.status == "harness" && r.clause == prop + ".realtime") {
+      printf("REPLAY reproduced property=%s clause=%s\nthe run made no progress for 90 s of real time (a loop without any synchronisation, system call or clock read)\n",
+             prop.c_str(), ex->gets("clause").c_str());
+      return 1;
+    }
+    printf("REPLAY passed: the run ended (expected %s)\n", ex->gets("clause").c_str());
+    return 0;
+  } else if (replay && ex && ex->gets("status") == "san") {
     // the expected failure kills the process (sanitizer report): contain it in a child of this fresh process
     r = runIsolated(w, plan, 120, prop);
   } else {
